@@ -402,7 +402,7 @@ func (l *Loaded) verifyLemma(r *Runner, lm *LemmaSpec) (res *FnResult) {
 		if gc.Label != "" {
 			n += "[" + gc.Label + "]"
 		}
-		o := &Oblig{Name: n, Kind: "lemma", Fn: name, Goal: g, PC: append([]Term{}, st.pc...), Expect: "unsat", Props: lm.Props}
+		o := &Oblig{Name: n, Kind: "lemma", Fn: name, Goal: g, PC: st.fullPC(), Expect: "unsat", Props: lm.Props}
 		if lm.Canary {
 			// a canary must be REFUTED: it is recorded as an expect-sat check of the negated goal
 			o.Kind = "canary"
